@@ -8,6 +8,7 @@ package main
 import (
 	"fmt"
 	"go/ast"
+	"go/token"
 	"go/types"
 	"os"
 	"path/filepath"
@@ -430,6 +431,9 @@ func (ec *evalCtx) urlSinkObligation(call *ast.CallExpr, arg *Term) {
 				if tv, ok := ec.info.Types[conv.Fun]; ok && tv.IsType() {
 					if t := ec.info.TypeOf(conv.Args[0]); t != nil && types.TypeString(t, nil) == modulePath+".SafeURL" {
 						typed = true
+						if why := ec.urlVarGate(conv.Args[0]); why != "" {
+							ec.fc.oblige(ec.st, "sink", False, call.Pos(), "href/action value "+exprText(conv.Args[0])+": "+why)
+						}
 					}
 				}
 			}
@@ -445,6 +449,87 @@ func (ec *evalCtx) urlSinkObligation(call *ast.CallExpr, arg *Term) {
 		}
 	}
 	ec.fc.oblige(ec.st, "sink", e.inL(arg, "DQ_ATTR_SAFE"), call.Pos(), "href/action value must be attribute-escaped")
+}
+
+// urlVarGate: the compile-time gate behind "a plain string does not compile". The variable written at a URL sink
+// must receive the template's expression in a way that makes the Go type checker demand a templ.SafeURL:
+//   var v templ.SafeURL = <expr>                     (assignability is the gate), or
+//   v[, err] = f(...)  with f a function of the templ module whose declared (uninstantiated) parameters - errors
+//                      aside - are all templ.SafeURL, or any function outside the templ module that returns a SafeURL
+// Returns "" when every definition of v is of one of these forms.
+func (ec *evalCtx) urlVarGate(x ast.Expr) string {
+	id, ok := ast.Unparen(x).(*ast.Ident)
+	if !ok {
+		return "" // an expression of static type SafeURL written in place: the type checker has seen it
+	}
+	obj := ec.info.Uses[id]
+	if obj == nil || ec.fc.body == nil {
+		return ""
+	}
+	safeURL := modulePath + ".SafeURL"
+	why := ""
+	defs := 0
+	declaredOnly := false
+	ast.Inspect(ec.fc.body, func(n ast.Node) bool {
+		switch n := n.(type) {
+		case *ast.ValueSpec:
+			for i, name := range n.Names {
+				if ec.info.Defs[name] != obj {
+					continue
+				}
+				if n.Type == nil || types.TypeString(ec.info.TypeOf(n.Type), nil) != safeURL {
+					why = "its declaration does not name the type templ.SafeURL"
+				}
+				if i < len(n.Values) {
+					defs++
+				} else {
+					declaredOnly = true
+				}
+			}
+		case *ast.AssignStmt:
+			for _, l := range n.Lhs {
+				lid, ok := ast.Unparen(l).(*ast.Ident)
+				if !ok || (ec.info.Uses[lid] != obj && ec.info.Defs[lid] != obj) {
+					continue
+				}
+				defs++
+				if n.Tok == token.DEFINE {
+					why = "it is defined with := (no declared type gates the expression)"
+					continue
+				}
+				if len(n.Rhs) != 1 {
+					continue // v = e with e checked against v's declared type by the compiler
+				}
+				callx, ok := ast.Unparen(n.Rhs[0]).(*ast.CallExpr)
+				if !ok {
+					continue
+				}
+				f := calleeFunc(ec.info, callx)
+				if f == nil || f.Pkg() == nil || !strings.HasPrefix(f.Pkg().Path(), modulePath) {
+					continue
+				}
+				sig, _ := f.Origin().Type().(*types.Signature)
+				if sig == nil {
+					continue
+				}
+				for i := 0; i < sig.Params().Len(); i++ {
+					pt := sig.Params().At(i).Type()
+					if sl, ok := pt.(*types.Slice); ok && sig.Variadic() && i == sig.Params().Len()-1 {
+						pt = sl.Elem()
+					}
+					ts := types.TypeString(pt, nil)
+					if ts != safeURL && ts != "error" {
+						why = "it is filled by " + f.FullName() + ", whose parameter " + sig.Params().At(i).Name() + " has declared type " + ts + " - a value that is not a templ.SafeURL compiles there"
+					}
+				}
+			}
+		}
+		return true
+	})
+	if why == "" && defs == 0 && declaredOnly {
+		why = "it is declared but never filled"
+	}
+	return why
 }
 
 // scriptBeforeUseObligation (C12): where the call of a script template is written
